@@ -10,7 +10,7 @@
     from the current tree, also with debug toggled.
 """
 from .. import core
-from ..exec import callcheck, upstream
+from ..exec import callcheck, structs_e2e, upstream
 
 LEVEL = "exploration"
 
@@ -44,6 +44,7 @@ def run(ctx):
     callcheck.run_engine(ctx, "fortran", [None, {"F_CFI": True}], 12 if quick else 200, ["c++"], with_overloads=True, nfunc=(1, 2), with_class=False)
     callcheck.run_engine(ctx, "fortran", [None], 10 if quick else 150, ["c++"], with_class=True, with_overloads=False, nfunc=(0, 2))
     callcheck.run_template_family(ctx, "fortran", 3 if quick else 40, [None, {"F_CFI": True}])
+    structs_e2e.run_structs(ctx, "fortran", 6 if quick else 120)
     names = upstream.target_lists()["fortran"]
     jobs = [(n, None) for n in names]
     if not quick:
@@ -63,4 +64,6 @@ def replay(ctx, rec):
         if res["stage"] != "ok":
             ctx.failure(rec["key"], c, observed=res["detail"], note=res["detail"][:800])
         return
+    if "struct_case" in c:
+        return structs_e2e.replay_case(ctx, rec)
     callcheck.replay_case(ctx, rec)
